@@ -14,14 +14,7 @@ impl<'de> Deserialize<'de> for FilePath {
     let components = Vec::<String>::deserialize(deserializer)?;
 
     for component in &components {
-      let mut parsed = Path::new(component).components();
-
-      let normal = matches!(
-        (parsed.next(), parsed.next()),
-        (Some(path::Component::Normal(name)), None) if name == OsStr::new(component)
-      );
-
-      if !normal {
+      if !Self::is_normal_component(component) {
         return Err(D::Error::custom(format!(
           "invalid file path component: `{component}`",
         )));
@@ -33,6 +26,15 @@ impl<'de> Deserialize<'de> for FilePath {
 }
 
 impl FilePath {
+  pub(crate) fn is_normal_component(component: &str) -> bool {
+    let mut parsed = Path::new(component).components();
+
+    matches!(
+      (parsed.next(), parsed.next()),
+      (Some(path::Component::Normal(name)), None) if name == OsStr::new(component)
+    )
+  }
+
   pub(crate) fn from_relative_path(path: &Path) -> Result<FilePath, Error> {
     let mut components = Vec::new();
 
